@@ -303,12 +303,13 @@ theorem C11_src_snapshots :
     `jacmin` in `solve`, translated from solver.py on every run (`Gen.jacUnscaleEntry`: entry (r, i) of the returned
     matrix), is entry (r, i) of `unscaleJac scale J`, the matrix of `unscale_jacobian` / `unscale_regression` /
     `jacobian_fits_user_points`; it runs for every column (`for i in range(n)`) exactly when there is a scaling and a
-    Jacobian. -/
+    Jacobian, and no later statement of `solve` binds `jacmin` again or starts another run (so the matrix that is
+    returned is the one that was un-scaled). -/
 theorem C11_src_unscale_jacobian {K : Type*} [Field K] {ν μ : Type*} (shift scale : ν → K) (J : Matrix μ ν K) (r : μ) (i : ν) :
     unscaleJac scale J r i = Gen.jacUnscaleEntry (fun a b => J a b) shift scale r i ∧
     Gen.jacUnscaleGuard = "scaling_changes is not None and jacmin is not None" ∧
-    Gen.jacUnscaleLoop = "for i in range(n)" :=
-  ⟨rfl, by decide, by decide⟩
+    Gen.jacUnscaleLoop = "for i in range(n)" ∧ Gen.jacBoundAfterUnscale = [] :=
+  ⟨rfl, by decide, by decide, by decide⟩
 
 end C11
 end Dfols
